@@ -3,7 +3,11 @@
 set -e
 cd "$(dirname "$0")"
 export CARGO_NET_OFFLINE=true
-( cd coq && coq_makefile -f _CoqProject -o Makefile >/dev/null && timeout 3000 make -j16 2>&1 | grep -v "^Closed under" | tail -20 )
-( cd harness && cargo build --offline 2>&1 | tail -3 )
-if [ -d translator ]; then ( cd translator && cargo build --offline --release 2>&1 | tail -3 ); fi
+if [ -d translator ]; then
+  ( cd translator && cargo build --offline --release 2>&1 | tail -3 ) || true
+  if [ -x translator/target/release/translator ]; then mkdir -p out; translator/target/release/translator /repo/src coq/Generated.v out/translator_report.json || true; fi
+fi
+( cd coq && coq_makefile -f _CoqProject -o Makefile >/dev/null && timeout 3000 make -k -j16 2>&1 | grep -v "^Closed under" | tail -20 ) || true
+# one crate per property: a member that does not build must not block the others
+( cd harness && for m in $(sed -n 's/^members = \[\(.*\)\]/\1/p' Cargo.toml | tr -d '",'); do cargo build --offline -p "$m" 2>&1 | tail -2 || true; done )
 echo setup done
